@@ -8,6 +8,7 @@
 
 #include <algorithm>
 #include <functional>
+#include <limits>
 #include <tuple>
 #include <type_traits>
 
@@ -212,6 +213,10 @@ namespace igris
 
         difftime_t minimal_interval(time_t curtime)
         {
+            // no timer planned: there is no next deadline ("never")
+            if (timer_list.empty())
+                return std::numeric_limits<difftime_t>::max();
+
             return timer_head_basic<TimeSpec>::sub(
                 timer_list.first().finish(), curtime);
         }
